@@ -354,10 +354,15 @@ pub fn add(lhs: &Value, rhs: &Value) -> Result<Value, Error> {
 math_binop!(sub, checked_sub, -);
 pub fn rem(lhs: &Value, rhs: &Value) -> Result<Value, Error> {
     match coerce(lhs, rhs, true) {
-        Some(CoerceResult::I128(a, b)) => match a.checked_rem_euclid(b) {
-            Some(val) => Ok(int_as_value(val)),
-            None => Err(failed_op("%", lhs, rhs)),
-        },
+        // only a zero divisor has no remainder; `MIN % -1` is 0 but
+        // overflows in the checked variant.
+        Some(CoerceResult::I128(a, b)) => {
+            if b != 0 {
+                Ok(int_as_value(a.wrapping_rem_euclid(b)))
+            } else {
+                Err(failed_op("%", lhs, rhs))
+            }
+        }
         Some(CoerceResult::F64(a, b)) => Ok(a.rem_euclid(b).into()),
         _ => Err(impossible_op("%", lhs, rhs)),
     }
